@@ -232,7 +232,7 @@ func loadFindings() []Finding {
 	return doc.Findings
 }
 
-var nitroFrame = regexp.MustCompile(`github\.com/couchbase/nitro[^\s(]*`)
+var nitroFrame = regexp.MustCompile(`github\.com/couchbase/nitro(/\w+)*\.(\(\*?\w+\)\.)?\w+(\.func\d+)*`)
 
 // classifyCrash inspects a dead child's log.
 func classifyCrash(log string) (kind, detail string, isNitro bool) {
